@@ -13,6 +13,9 @@ W vf_try(void *fn, int n, W *a, int *err) {
       case 4: r = ((W(*)(W,W,W,W))fn)(a[0],a[1],a[2],a[3]); break;
       case 5: r = ((W(*)(W,W,W,W,W))fn)(a[0],a[1],a[2],a[3],a[4]); break;
       case 6: r = ((W(*)(W,W,W,W,W,W))fn)(a[0],a[1],a[2],a[3],a[4],a[5]); break;
+      case 7: r = ((W(*)(W,W,W,W,W,W,W))fn)(a[0],a[1],a[2],a[3],a[4],a[5],a[6]); break;
+      case 8: r = ((W(*)(W,W,W,W,W,W,W,W))fn)(a[0],a[1],a[2],a[3],a[4],a[5],a[6],a[7]); break;
+      default: *err = -99; break;
     }
   } RLC_CATCH(e) { *err = e ? e : 1; }
   return r;
@@ -22,3 +25,7 @@ size_t vf_off_dp(void){ return offsetof(bn_st, dp); }
 size_t vf_off_seeded(void){ return offsetof(ctx_t, seeded); }
 size_t vf_off_rand(void){ return offsetof(ctx_t, rand); }
 size_t vf_off_counter(void){ return offsetof(ctx_t, counter); }
+/* --- probe helpers for protocol key types --- */
+#include <stdlib.h>
+void *vf_rsa_new(void){ rsa_t *r = (rsa_t*)malloc(sizeof(rsa_t)); rsa_new(*r); return r; }
+void *vf_rsa_field(void *r, int i){ rsa_t *k=(rsa_t*)r; switch(i){ case 0: return (*k)->d; case 1: return (*k)->e; case 2: return (*k)->crt->n; case 3: return (*k)->crt->p; case 4: return (*k)->crt->q; case 5: return (*k)->crt->dp; case 6: return (*k)->crt->dq; case 7: return (*k)->crt->qi;} return 0; }
